@@ -462,7 +462,7 @@ this needs the rational-valued analogue of `raw_close` (binade crossing in both 
 subnormal branch of `negFinish`) and is **not** done, so `real_within_one_ulp` stays an open
 `Prop` for negative net exponents and is searched by the oracle. -/
 theorem negScale_error_bound (num x : Nat) (hn : num < 2 ^ 64) (hx : x ≤ 2 ^ 20) :
-    ∃ b S k, negScale num x = some (b, x + 64 + S) ∧ k ≤ x / 27 + 1 ∧
+    ∃ b S k, negScale num x = some (b, x + 64 + S) ∧ k ≤ x / 27 + 1 ∧ S ≤ 64 * (x / 27 + 1) ∧
       b * 5 ^ x * 2 ^ 61 ≤ num * 2 ^ (64 + S) * (2 ^ 61 + k) ∧
       num * 2 ^ (64 + S) * 2 ^ 61 ≤ (b + k) * 5 ^ x * (2 ^ 61 + k) :=
   negScale_error num x hn hx
